@@ -201,6 +201,8 @@ def guards(chain):
                     out.append(('if', st['cond'], False))
                 elif isinstance(st, dict) and st.get('k') == 'if' and 'else' in st and diverges(st['else']) and not diverges(st.get('then')):
                     out.append(('if', st['cond'], True))
+        if k == 'call' and short(callee(a)) in ('then', 'then_some') and 'bool' in callee(a) and a.get('args') and nxt is not a['args'][0]:
+            out.append(('if', a['args'][0], True))     # `cond.then(|| value)`: the closure runs when cond holds
         if k == 'if':
             if nxt is a.get('then'):
                 out.append(('if', a['cond'], True))
